@@ -10,7 +10,8 @@ data) and `C` (a reference back to a container that is being printed: cyclic dat
 * `run <dev> <n> <plan> <root>` — NewPlan, then `n` (1 or 2) executions of the SAME plan on fresh
   copies of the root: `<outcome> <root after>` per run, joined by `;` (a run that ends `diverge`,
   `unmodelled`, `enum` or `fuel` ends the answer). `<dev>`: `cur` (`Dev.current`), `-` (`Dev.none`)
-  or a subset of the letters `c d n l f` (`cmpUneval divZeroInf condListNil litAlias cmpFloat`).
+  or a subset of the letters `c d n l f a` (`cmpUneval divZeroInf condListNil litAlias cmpFloat
+  condListAlias`).
 * `simp <plan>` — `Fn.Simplify` of the compiled plan (tree level), `unmodelled` outside the model
 * `fns` — the modelled and the unmodelled function names (hex, comma separated, `;` between the lists)
 * `spec <fn hex> <dev> <args>` — the documented result of one function on literal arguments (`<args>`
@@ -144,8 +145,8 @@ def Outcome.text : Outcome → String
 def readDev (s : String) : Option Dev :=
   if s = "cur" then some Dev.current
   else if s = "-" then some Dev.none
-  else if s.toList.all (fun c => c = 'c' || c = 'd' || c = 'n' || c = 'l' || c = 'f') then
-    some ⟨s.contains 'c', s.contains 'd', s.contains 'n', s.contains 'l', s.contains 'f'⟩
+  else if s.toList.all (fun c => c = 'c' || c = 'd' || c = 'n' || c = 'l' || c = 'f' || c = 'a') then
+    some ⟨s.contains 'c', s.contains 'd', s.contains 'n', s.contains 'l', s.contains 'f', s.contains 'a'⟩
   else none
 
 def treeDepth : Nat → Tree → Nat
